@@ -71,7 +71,7 @@ def build_case(spec):
     for p in procs: params.update(p.get('params', {}))
     return dict(build=build, dyn=spec['dyn'], nodes=spec['nodes'], edges=[tuple(e) for e in spec['edges']], maxT=spec['maxT'],
                 seed=spec['seed'], params=params, specials=spec.get('specials', ()), pspecial=spec.get('pspecial', 0.0),
-                oracles=[ORACLES[o] for o in spec.get('oracles', [])])
+                oracles=[ORACLES[o] for o in spec.get('oracles', [])], finals=[FINALS[o] for o in spec.get('oracles', []) if o in FINALS])
 
 
 # ---------------------------------------------------------------------------------------------------------------
@@ -288,3 +288,170 @@ def run_ops_case(spec):
 
 
 RUNNERS = dict(ops=run_ops_case)
+
+
+# ---------------------------------------------------------------------------------------------------------------
+# C07 / C08 oracles on the real run
+DIAGRAMS = {
+    'SIR': {('S', 'I'), ('I', 'R')}, 'SIS': {('S', 'I'), ('I', 'S')}, 'SIRS': {('S', 'I'), ('I', 'R'), ('R', 'S')},
+    'SEIR': {('S', 'E'), ('E', 'I'), ('I', 'R')}, 'SIR_FixedRecovery': {('S', 'I'), ('I', 'R')}, 'SIS_FixedRecovery': {('S', 'I'), ('I', 'S')},
+    'SIR_VariableInfection': {('S', 'I'), ('I', 'R')}, 'Opinion': {('G', 'P'), ('P', 'T')}, 'SIvR': {('S', 'I'), ('I', 'R')},
+}
+
+
+def _short(p, c):
+    """compartment constant -> its letter in the property text"""
+    for k in dir(type(p)):
+        if k.isupper() and getattr(type(p), k) == c and k in ('SUSCEPTIBLE', 'INFECTED', 'REMOVED', 'EXPOSED', 'IGNORANT', 'SPREADER', 'STIFLER'):
+            return {'SUSCEPTIBLE': 'S', 'INFECTED': 'I', 'REMOVED': 'R', 'EXPOSED': 'E', 'IGNORANT': 'G', 'SPREADER': 'P', 'STIFLER': 'T'}[k]
+    return None
+
+
+def _infectious(p):
+    cls = type(p).__name__
+    if cls == 'SEIR': return {p.EXPOSED, p.INFECTED}
+    if cls in ('Opinion', 'Vaccinate'): return {p.SPREADER}
+    return {p.INFECTED}
+
+
+def oracle_diagram(d, ex, cur, t, p, name, e):
+    """C07: partition; every compartment change is an arrow of the diagram; infection only through an edge to a neighbour that is
+    infectious at that very moment; per-edge transmission rate; fixed recovery exactly T after infection"""
+    g = d.network()
+    st = d.__dict__.setdefault('_vp_diag', dict(prev={}, since={}))
+    out = None
+    for q in ex.cms:
+        if isinstance(q, ScriptProc): continue
+        key = id(q); cls = type(q).__name__
+        now = {n: g.nodes[n].get(q.COMPARTMENT) for n in g.nodes()}
+        for n, c in now.items():
+            if c not in q._compartments: out = out or f"node {n} is in no compartment of {cls} ({c})"
+        prev = st['prev'].get(key)
+        if prev is not None:
+            changed = [(n, prev[n], now[n]) for n in now if n in prev and prev[n] != now[n]]
+            for (n, a, b) in changed:
+                arrow = (_short(q, a), _short(q, b))
+                if arrow not in DIAGRAMS.get(cls, set()):
+                    out = out or f"{cls}: node {n} moved {arrow[0]}->{arrow[1]}, not an arrow of the diagram (event {name})"
+                if arrow[0] in ('S', 'G') and q is p:
+                    if not (isinstance(e, tuple) and e[0] == n):
+                        out = out or f"{cls}: node {n} was infected by event {name} on {e}, not through one of its edges"
+                    elif prev.get(e[1]) not in _infectious(q) or not g.has_edge(e[0], e[1]):
+                        out = out or f"{cls}: node {n} infected through {e} but {e[1]} was in {_short(q, prev.get(e[1]))} at that moment"
+                if cls in ('SIR_FixedRecovery', 'SIS_FixedRecovery'):
+                    if arrow[0] == 'S': st['since'][(key, n)] = t
+                    if arrow[0] == 'I':
+                        t0 = st['since'].get((key, n), 0.0)
+                        if t != t0 + q._tInfected:
+                            out = out or f"{cls}: node {n} entered I at {t0} and left at {t}, configured time {q._tInfected}"
+        st['prev'][key] = now
+        # transmission acts on every susceptible-infectious edge: rate of the infection event = p * number of such edges
+        if d.__class__.__mro__[1].__name__ == 'StochasticDynamics' and cls not in ('SIR_VariableInfection', 'Opinion', 'Vaccinate', 'SEIR'):
+            si = sum(1 for (a, b) in g.edges() if {now[a], now[b]} == {q.SUSCEPTIBLE, q.INFECTED})
+            for (l, r, f, nm) in q.perElementEventRateDistribution(t) + q.fixedRateEventDistribution(t):
+                if nm == q.INFECTED and hasattr(l, 'name') and l.name().endswith('SI'):
+                    pinf = [pr for (ll, pr, ff, nn) in q._perElementEvents + q._perLocusEvents if nn == q.INFECTED][0]
+                    if r != pinf * si:
+                        out = out or f"{cls}: infection rate is {r} with {si} susceptible-infected edges and pInfect={pinf}"
+    return ('diagram', out) if out else None
+
+
+def final_diagram(d, ex, res, md, spec):
+    """end-of-run clauses of C07: results = true counts summing to the order; a run that stopped because nothing can happen
+    has no S-I edge and (when recovery has positive probability) no infectious node"""
+    g = d.network()
+    for q in ex.cms:
+        if isinstance(q, ScriptProc): continue
+        cls = type(q).__name__
+        tot = 0
+        for c in q._compartments:
+            k = q.decoratedNameInInstance(c) if False else c
+            true = sum(1 for n in g.nodes() if g.nodes[n].get(q.COMPARTMENT) == c)
+            if res.get(c) != true: return f"{cls}: results report {res.get(c)} nodes in {_short(q, c)}, the network has {true}"
+            tot += true
+        if tot != g.order(): return f"{cls}: compartment sizes sum to {tot}, the network has {g.order()} nodes"
+        if spec['dyn'] == 'sto' and md[Dynamics.TIME] < q.maximumTime() and not d._postedEventFinder and cls in ('SIR', 'SIS', 'SIRS', 'SIR_VariableInfection'):
+            c = lambda n: g.nodes[n].get(q.COMPARTMENT)
+            si = [(a, b) for (a, b) in g.edges() if {c(a), c(b)} == {q.SUSCEPTIBLE, q.INFECTED}]
+            pinf = [pr for (l, pr, f, nm) in q._perElementEvents if nm == q.INFECTED]
+            if si and (cls == 'SIR_VariableInfection' or (pinf and pinf[0] > 0)) and cls != 'SIR_VariableInfection':
+                return f"{cls}: run stopped at {md[Dynamics.TIME]} (nothing possible) with S-I edge {si[0]} left"
+            prem = [pr for (l, pr, f, nm) in q._perElementEvents if nm in (getattr(q, 'REMOVED', None), getattr(q, 'RECOVERED', None))]
+            inf = [n for n in g.nodes() if c(n) == q.INFECTED]
+            if inf and prem and prem[0] > 0:
+                return f"{cls}: run stopped at {md[Dynamics.TIME]} with infectious node {inf[0]} although recovery has probability {prem[0]}"
+    return None
+
+
+def final_forest(d, ex, res, md, spec):
+    """C08 on the final network: occupied edges form a forest, one seed per tree touching an infected node, hitting times"""
+    g = d.network()
+    seeds = d.__dict__.get('_vp_seeds', {})
+    for q in ex.cms:
+        if isinstance(q, ScriptProc): continue
+        cls = type(q).__name__
+        if cls in ('SIS', 'SIS_FixedRecovery', 'SIRS'): continue           # nodes can be infected more than once
+        occ = [(a, b) for (a, b, data) in g.edges(data=True) if data.get(q.OCCUPIED, False)]
+        seed = seeds.get(id(q), set())
+        sus = q.SUSCEPTIBLE if hasattr(q, 'SUSCEPTIBLE') else q.IGNORANT
+        ever = {n for n in g.nodes() if g.nodes[n].get(q.COMPARTMENT) != sus} | seed
+        parent = {n: n for n in g.nodes()}
+
+        def find(x):
+            while parent[x] != x:
+                parent[x] = parent[parent[x]]; x = parent[x]
+            return x
+        for (a, b) in occ:
+            ra, rb = find(a), find(b)
+            if ra == rb: return f"{cls}: occupied edges contain a cycle through ({a}, {b})"
+            parent[ra] = rb
+        trees = {}
+        for n in g.nodes(): trees.setdefault(find(n), []).append(n)
+        touched = {n for e in occ for n in e}
+        for r, ns in trees.items():
+            if any(n in ever for n in ns):
+                k = [n for n in ns if n in seed]
+                if len(k) != 1: return f"{cls}: the occupied tree {sorted(ns)} contains {len(k)} initially infected seeds"
+        for n in g.nodes():
+            hit = g.nodes[n].get('tHitting')
+            inc = [(a, b) for (a, b) in occ if n in (a, b)]
+            if n in seed:
+                if hit is not None: return f"{cls}: seed {n} has hitting time {hit}"
+            elif n in ever:
+                mine = [(a, b) for (a, b) in inc if g.edges[a, b].get('tOccupied') == hit]
+                if hit is None: return f"{cls}: infected node {n} has no hitting time"
+                if len(mine) < 1: return f"{cls}: infected node {n} (hit at {hit}) has no occupied edge occupied at that time"
+            else:
+                if inc: return f"{cls}: never-infected node {n} touches occupied edge {inc[0]}"
+                if hit is not None: return f"{cls}: never-infected node {n} has hitting time {hit}"
+        if len(occ) != len(ever - seed): return f"{cls}: {len(occ)} occupied edges for {len(ever - seed)} infected non-seed nodes"
+    return None
+
+
+def oracle_forest(d, ex, cur, t, p, name, e):
+    """C08 per event: an infection occupies exactly its edge at the event's time, the hitting time is that time and is strictly later
+    than the infector's (seeds carry none)"""
+    g = d.network()
+    if '_vp_seeds' not in d.__dict__: return None
+    q = p
+    if not isinstance(q, CompartmentedModel) or isinstance(q, ScriptProc): return None
+    if isinstance(e, tuple) and name in (getattr(q, 'INFECTED', None), getattr(q, 'SPREADER', None), getattr(q, 'INFECTED_ASYMPTOMATIC', None),
+                                         getattr(q, 'INFECTED_SYMPTOMATIC', None), getattr(q, 'EXPOSED', None)):
+        (n, m) = e
+        if not g.has_edge(n, m): return None
+        data = g.edges[n, m]
+        first = d.__dict__.setdefault('_vp_first', {})
+        if (id(q), n) not in first:
+            first[(id(q), n)] = t
+            if not data.get(q.OCCUPIED, False): return ('forest', f"infection of {n} through {e} at {t} did not mark the edge occupied")
+            if g.nodes[n].get('tHitting') != t: return ('forest', f"node {n} infected at {t} has hitting time {g.nodes[n].get('tHitting')}")
+            if data.get('tOccupied') != t and type(q).__name__ not in ('SIS', 'SIS_FixedRecovery', 'SIRS'):
+                return ('forest', f"edge {e} occupied by the infection at {t} records occupation time {data.get('tOccupied')}")
+            hm = g.nodes[m].get('tHitting')
+            if m not in d._vp_seeds.get(id(q), set()) and (hm is None or not hm < t):
+                return ('forest', f"node {n} hit at {t} by {m}, whose own hitting time is {hm}")
+    return None
+
+
+ORACLES.update(diagram=oracle_diagram, forest=oracle_forest)
+FINALS = dict(diagram=final_diagram, forest=final_forest)
